@@ -23,8 +23,9 @@ import Pog.Props.ClientGen
           float / bool / null keys                                    ✗      `status_key_typing_counterexample`,
           `unquoted_reading_only_loses_operations`
     derived (PATH) ids distinct for distinct operations               ✗      `derived_ids_distinct_counterexample`
-    final method names pairwise distinct                              ✗      `method_names_distinct_counterexample`
-          (both the one-pass diff path and the two-pass direct path), `reachable_exactly_once_partial`
+    final method names pairwise distinct                              full   `method_names_distinct` (F17 repaired; one emit
+          pass or two: `emit_passes_irrelevant`), former witnesses `method_names_distinct_former_witness`,
+          `dedup_suffix_collision_former_witness`
     exactly one method per tag client                                 ✗      `duplicate_tag_counterexample`,
           `reachable_exactly_once_partial`
     method names are valid identifiers                                ✗      `method_names_valid` (partial: ids with an
@@ -205,24 +206,37 @@ theorem derived_ids_distinct_counterexample :
 /-- Documents of bare `get` operations on the given paths. -/
 def bareGets (ps : List String) : Paths := ps.map (fun p => (s p, [(s "get", ({} : RawOp))]))
 
-/-- ✗ FULL: the final method names of distinct operations are pairwise distinct.
-    Witnesses, PATH strategy, no operationId anywhere:
-    * diff path (one `emit`): `/a/b`, `/a/{b}`, `/a/b_2` → `get_a_b, get_a_b_2, get_a_b_2`;
-    * direct path (`emit` runs twice): `/a/b`, `/a/{b}`, `/a/b_2`, `/a/b_2_2` →
-      `get_a_b, get_a_b_2, get_a_b_2_2, get_a_b_2_2`. -/
-theorem method_names_distinct_counterexample :
+/-- `method_names_distinct` at full strength (F17 repaired): the final method names of EVERY list of IR operations are pairwise
+    distinct - declared, cleaned or derived ids, colliding or not, one `emit` pass (diff path) or two. -/
+theorem method_names_distinct (direct : Bool) (ops : List IROp) : (finalMethodNames direct ops).Nodup :=
+  finalMethodNames_nodup direct ops
+
+/-- The number of `emit` passes over the same operation objects does not matter any more: the pass is idempotent. -/
+theorem emit_passes_irrelevant (ops : List IROp) : finalMethodNames true ops = finalMethodNames false ops := by
+  rw [finalMethodNames_eq, finalMethodNames_eq]
+
+/-- Operation `i` is named after ITS OWN id: `sanitize_method_name(id_i)` or `sanitize_method_name(f"{id_i}_{n}")`. -/
+theorem method_name_follows_own_id (direct : Bool) (ops : List IROp) :
+    ∀ p ∈ ops.zip (finalMethodNames direct ops),
+      p.2 = sanMethod p.1.opId ∨ ∃ n, p.2 = sanMethod (sufId p.1.opId n) :=
+  finalMethodNames_shape direct ops
+
+/-- The former witnesses of F17, PATH strategy, no operationId anywhere:
+    * diff path (one `emit`): `/a/b`, `/a/{b}`, `/a/b_2` used to give `get_a_b, get_a_b_2, get_a_b_2`;
+    * direct path (`emit` twice): `/a/b`, `/a/{b}`, `/a/b_2`, `/a/b_2_2` used to give `get_a_b, get_a_b_2, get_a_b_2_2, get_a_b_2_2`. -/
+theorem method_names_distinct_former_witness :
     finalMethodNames false (parseOps UInfo.ascii .path (bareGets ["/a/b", "/a/{b}", "/a/b_2"])).1
-      = [s "get_a_b", s "get_a_b_2", s "get_a_b_2"] ∧
+      = [s "get_a_b", s "get_a_b_2", s "get_a_b_2_2"] ∧
     finalMethodNames true (parseOps UInfo.ascii .path (bareGets ["/a/b", "/a/{b}", "/a/b_2", "/a/b_2_2"])).1
-      = [s "get_a_b", s "get_a_b_2", s "get_a_b_2_2", s "get_a_b_2_2"] := by
+      = [s "get_a_b", s "get_a_b_2", s "get_a_b_2_2", s "get_a_b_2_2_2"] := by
   decide
 
 /-- The same with declared ids (`foo, foo, foo_2` / `foo, foo, foo_2, foo_2_2`), on the ids alone. -/
-theorem dedup_suffix_collision_counterexample :
+theorem dedup_suffix_collision_former_witness :
     finalMethodNames false [⟨[], [], s "foo", []⟩, ⟨[], [], s "foo", []⟩, ⟨[], [], s "foo_2", []⟩]
-      = [s "foo", s "foo_2", s "foo_2"] ∧
+      = [s "foo", s "foo_2", s "foo_2_2"] ∧
     finalMethodNames true [⟨[], [], s "foo", []⟩, ⟨[], [], s "foo", []⟩, ⟨[], [], s "foo_2", []⟩, ⟨[], [], s "foo_2_2", []⟩]
-      = [s "foo", s "foo_2", s "foo_2_2", s "foo_2_2"] := by
+      = [s "foo", s "foo_2", s "foo_2_2", s "foo_2_2_2"] := by
   decide
 
 /-- The de-duplication never drops or adds an operation: one method name per IR operation (all inputs). -/
@@ -240,56 +254,66 @@ theorem clients_are_keyed_uniquely (u : UInfo) (direct : Bool) (ops : List IROp)
     ((clients u direct ops).map (·.1)).Nodup :=
   clients_keys_nodup u direct ops
 
-/-- PARTIAL (`reachable_exactly_once`): when no operation raises and the sanitised ids are pairwise
-    distinct, then — on the direct and on the diff path alike —
+/-- PARTIAL (`reachable_exactly_once`): when no operation raises (F17 repaired: the sanitised ids may collide) then — on the
+    direct and on the diff path alike —
     * there is one IR operation per recognised (path, method) pair, in document order,
-    * the de-duplication changes nothing: operation `i` gets the method name `sanMethod id_i`,
-    * the method names are pairwise distinct (distinct operations never collapse),
+    * there is one final method name per IR operation, the names are pairwise distinct (distinct operations never collapse),
+    * operation `i` is named after its own id as the selected strategy derives it (`sanMethod id_i`, or with a numeric suffix),
+      and when the sanitised ids are already pairwise distinct the de-duplication changes nothing,
     * for every operation and every client key, the client defines the operation's method exactly as many
       times as the operation has tags normalising to that key: once for each of its clients when its tags
       have pairwise distinct keys, never in a client it does not belong to. -/
 theorem reachable_exactly_once_partial (u : UInfo) (st : Naming) (direct : Bool) (paths : Paths)
-    (hs : parseSucceeds u st paths = true)
-    (hn : ((parseOps u st paths).1.map (fun o => sanMethod o.opId)).Nodup) :
+    (hs : parseSucceeds u st paths = true) :
     let ops := (parseOps u st paths).1
+    let names := finalMethodNames direct ops
     ops.map IROp.key = allPairs u paths ∧
-    finalMethodNames direct ops = ops.map (fun o => sanMethod o.opId) ∧
-    (finalMethodNames direct ops).Nodup ∧
-    ∀ o ∈ ops, ∀ key,
-      (clientMethods u direct ops key).count (sanMethod o.opId) = ((opTags o).map (normTagKey u)).count key := by
-  intro ops
-  have h2 := finalMethodNames_of_nodup direct ops hn
-  refine ⟨(parseOps_keeps_all u st paths hs).1, h2, h2 ▸ hn, ?_⟩
-  intro o ho key
-  exact clientMethods_count u direct ops key hn o ho
+    names.length = ops.length ∧ names.Nodup ∧
+    (∀ p ∈ ops.zip names, p.2 = sanMethod p.1.opId ∨ ∃ n, p.2 = sanMethod (sufId p.1.opId n)) ∧
+    ((ops.map (fun o => sanMethod o.opId)).Nodup → names = ops.map (fun o => sanMethod o.opId)) ∧
+    ∀ p ∈ ops.zip names, ∀ key,
+      (clientMethods u direct ops key).count p.2 = ((opTags p.1).map (normTagKey u)).count key := by
+  intro ops names
+  exact ⟨(parseOps_keeps_all u st paths hs).1, finalMethodNames_length direct ops, finalMethodNames_nodup direct ops,
+    finalMethodNames_shape direct ops, finalMethodNames_of_nodup direct ops,
+    fun p hp key => clientMethods_count_zip u direct ops key p hp⟩
+
+/-- The hypothesis is satisfiable by a document whose ids COLLIDE (`foo, foo, foo_2`, the former F17 witness). -/
+example : parseSucceeds UInfo.ascii .operationId
+    [(s "/a", [(s "get", { operationId := some (s "foo"), responses := [.strKey (s "200")] }),
+               (s "put", { operationId := some (s "foo"), responses := [.strKey (s "200")] }),
+               (s "post", { operationId := some (s "foo_2"), tags := .list [s "x"], responses := [.strKey (s "200")] })])] = true := by
+  decide
 
 /-- **C07 end to end over three models** (operations parser `Pog.Ops`, de-duplication + grouping of the endpoints emitter,
-    `ClientVisitor` `Pog.ClientGen`): when no operation raises and the sanitised ids are pairwise distinct, then for EVERY recognised
-    (path, method) operation `o` of the document and EVERY tag `t` of it (or `default`):
+    `ClientVisitor` `Pog.ClientGen`): when no operation raises, then for EVERY recognised (path, method) operation `o` of the
+    document, its final method name `name` (pairwise distinct over the document, `method_names_distinct`; `sanitize_method_name` of
+    the id the selected strategy derives, possibly with a numeric suffix, `method_name_follows_own_id`) and EVERY tag `t` of it (or
+    `default`):
     * `APIClient` has a property named `sanitize_module_name(c)` returning `sanitize_class_name(c) + "Client"`, `c` the canonical
       spelling of `t`'s tag group (same normalised key as `t`), and
-    * the client of that tag group defines `o`'s method - named `sanitize_method_name(id)` as the selected strategy derives it -
-      exactly as many times as `o` has tags in that group: ONCE when `o`'s tags have pairwise distinct keys.
+    * the client of that tag group defines `name` exactly as many times as `o` has tags in that group: ONCE when `o`'s tags have
+      pairwise distinct keys.
     What the theorem does not carry: that the class written to `endpoints/<module>.py` is the one the property imports (the import
-    lines of `client.py` are part of the ClientGen skeleton correspondence), and the hypotheses' complements (F17, F44, F45, F64). -/
+    lines of `client.py` are part of the ClientGen skeleton correspondence), and the hypotheses' complements (F44, F45, F64). -/
 theorem reachable_through_apiclient_partial (u : UInfo) (st : Naming) (direct : Bool) (paths : Paths)
     (hs : parseSucceeds u st paths = true)
-    (hn : ((parseOps u st paths).1.map (fun o => sanMethod o.opId)).Nodup)
-    (o : IROp) (ho : o ∈ (parseOps u st paths).1) (t : Str) (ht : t ∈ opTags o) :
+    (o : IROp) (name : Str) (ho : (o, name) ∈ (parseOps u st paths).1.zip (finalMethodNames direct (parseOps u st paths).1))
+    (t : Str) (ht : t ∈ opTags o) :
     let ops := (parseOps u st paths).1
     let tagss := ops.map (·.tags)
     let c := ClientGen.canonicalTag u tagss (normTagKey u t)
     (sanModule u c, sanClass c ++ kClientSuffix) ∈ (ClientGen.apiClientSkel (ClientGen.tagTuples u tagss)).props ∧
     normTagKey u c = normTagKey u t ∧
-    (clientMethods u direct ops (normTagKey u t)).count (sanMethod o.opId)
+    (clientMethods u direct ops (normTagKey u t)).count name
       = ((opTags o).map (normTagKey u)).count (normTagKey u t) ∧
     (((opTags o).map (normTagKey u)).Nodup →
-      (clientMethods u direct ops (normTagKey u t)).count (sanMethod o.opId) = 1) := by
+      (clientMethods u direct ops (normTagKey u t)).count name = 1) := by
   intro ops tagss c
-  have hts : o.tags ∈ tagss := List.mem_map.mpr ⟨o, ho, rfl⟩
+  have hts : o.tags ∈ tagss := List.mem_map.mpr ⟨o, (List.of_mem_zip ho).1, rfl⟩
   have ht' : t ∈ ClientGen.tagsOr o.tags := ht
   obtain ⟨h1, h2, _⟩ := ClientGenProps.every_tag_group_has_a_property u tagss o.tags hts t ht'
-  have h3 := (reachable_exactly_once_partial u st direct paths hs hn).2.2.2 o ho (normTagKey u t)
+  have h3 := (reachable_exactly_once_partial u st direct paths hs).2.2.2.2.2 (o, name) ho (normTagKey u t)
   refine ⟨h1, h2, h3, fun hnd => ?_⟩
   rw [h3, hnd.count, if_pos (List.mem_map.mpr ⟨t, ht, rfl⟩)]
 
@@ -297,11 +321,11 @@ theorem reachable_through_apiclient_partial (u : UInfo) (st : Naming) (direct : 
     once in each of its clients and not at all in any other. -/
 theorem reachable_exactly_once_per_client (u : UInfo) (st : Naming) (direct : Bool) (paths : Paths)
     (hs : parseSucceeds u st paths = true)
-    (hn : ((parseOps u st paths).1.map (fun o => sanMethod o.opId)).Nodup)
-    (o : IROp) (ho : o ∈ (parseOps u st paths).1) (ht : ((opTags o).map (normTagKey u)).Nodup) (key : Str) :
-    (clientMethods u direct (parseOps u st paths).1 key).count (sanMethod o.opId)
+    (o : IROp) (name : Str) (ho : (o, name) ∈ (parseOps u st paths).1.zip (finalMethodNames direct (parseOps u st paths).1))
+    (ht : ((opTags o).map (normTagKey u)).Nodup) (key : Str) :
+    (clientMethods u direct (parseOps u st paths).1 key).count name
       = if key ∈ (opTags o).map (normTagKey u) then 1 else 0 := by
-  rw [(reachable_exactly_once_partial u st direct paths hs hn).2.2.2 o ho key]
+  rw [(reachable_exactly_once_partial u st direct paths hs).2.2.2.2.2 (o, name) ho key]
   exact ht.count
 
 example :
